@@ -380,6 +380,17 @@ def gen_spec(rng, depth=0):
         return [rng.choice(['fset', 'fmset']), list(items.values())]
     if r < 0.58:
         ks = {_eqkey(s): s for s in (gen_leaf(rng) for _ in range(rng.choice([0, 1, 2, 3]))) if s[0] in ('int', 'str', 'bytes', 'none')}
+        if rng.random() < 0.3:
+            # keys that are only PARTIALLY ordered (sets: neither {1,2} < {2,3} nor the reverse; tuples of them): sorting such keys never
+            # raises but depends on the order they arrive in
+            members = [['int', 1], ['int', 2], ['int', 3], ['str', 'a'], ['str', 'b']]
+            sets = []
+            for _ in range(rng.choice([2, 3, 4])):
+                pick = sorted(rng.sample(range(len(members)), rng.choice([1, 2, 2, 3])))
+                sets.append(['fset', [members[i] for i in pick]])
+            if rng.random() < 0.3:
+                sets = [['tuple', [x, ['int', 0]]] for x in sets]
+            ks = {core.canon(spec_key(x)): x for x in sets}
         kind = rng.choice(['dict', 'fdict'])
         items = [[k, gen_spec(rng, depth + 1)] for k in ks.values()]
         if kind == 'fdict':
@@ -997,6 +1008,16 @@ def worker_init():
     from . import c17_a, c17_b
 
 
+def _neutralise(spec, inside=False):
+    '''`spec` with the negative zeros inside Singleton / DataClass / frozendict values (the kinds the known finding is about) replaced by 0.375.'''
+    if isinstance(spec, list):
+        if spec[:1] == ['float'] and len(spec) == 2 and isinstance(spec[1], float) and spec[1] == 0 and str(spec[1]) == '-0.0':
+            return ['float', 0.375] if inside else spec
+        here = inside or (bool(spec) and spec[0] in ('S', 'D', 'fdict'))
+        return [_neutralise(x, here) for x in spec]
+    return spec
+
+
 def _has_negzero(pool):
     return '-0.0' in json.dumps(pool)
 
@@ -1009,9 +1030,11 @@ def run_case(case):
             return run_xproc(case)
         res = run_history(case)
         if res.get('verdict') == 'violation' and _has_negzero(case['pool']):
-            # Is it the known finding (intern tables are keyed on Python equality of the arguments, so X(-0.0) and X(0.0) share an entry)?
-            # Only if the violation disappears when the negative zeros are replaced by a float that is equal to nothing else in the pool.
-            c2 = json.loads(json.dumps(case).replace('-0.0', '0.375'))
+            # Is it the known finding (intern tables of Singleton / DataClass keyed on Python equality of the arguments; frozendict.__eq__ adopting
+            # the storage of an equal dictionary)?  Only if the violation disappears when the negative zeros INSIDE VALUES OF THOSE KINDS are
+            # replaced by a float that is equal to nothing else in the pool - a conflation anywhere else (plain Immutable, tuples, ...) stays a violation.
+            c2 = copy.deepcopy(case)
+            c2['pool'] = [_neutralise(sp) for sp in c2['pool']]
             res2 = run_history(c2)
             if res2.get('verdict') == 'pass':
                 res['vclass'] = 'I-python-equal-values-conflated'
